@@ -133,7 +133,7 @@ def ViewAgree (v d : Option HostView) : Prop :=
     endpoints, the same set of service accounts. -/
 theorem view_eq_derive (c : Ctl) (h : String) (hinv : Inv c) (hwf : WF c)
     (hnc : NoCachedAddr c) (hnp : NoPodAtUntargeted c)
-    (hdist : ∀ sv, DistinctEps c h sv) :
+    (hdist : ∀ sv, c.svcs.find? (fun sv => sv.host = h) = some sv → DistinctEps c h sv) :
     ViewAgree (hostView c h) (derive c h) := by
   unfold ViewAgree hostView derive
   -- the service
@@ -220,11 +220,11 @@ theorem view_eq_derive (c : Ctl) (h : String) (hinv : Inv c) (hwf : WF c)
             exact ⟨(sl.name, eps), by simpa [Option.getD] using mem_of_alookup per sl.name eps hfr, hee⟩
     have hdL : ∀ e1 ∈ ((alookup h c.cache).getD []).flatMap (·.2), ∀ e2 ∈ ((alookup h c.cache).getD []).flatMap (·.2),
         epKey e1 = epKey e2 → e1 = e2 :=
-      fun e1 h1 e2 h2 hk => hdist sv e1 ((hM e1).mp h1) e2 ((hM e2).mp h2) hk
+      fun e1 h1 e2 h2 hk => hdist sv hf e1 ((hM e1).mp h1) e2 ((hM e2).mp h2) hk
     have hget : ∀ e, e ∈ cacheGet c.cache h ↔ e ∈ dedupEps [] (deriveAll c h sv) := by
       intro e
       unfold cacheGet
-      rw [mem_dedupEps _ [] e hdL, mem_dedupEps _ [] e (hdist sv), hM e]
+      rw [mem_dedupEps _ [] e hdL, mem_dedupEps _ [] e (hdist sv hf), hM e]
     -- the index holds `get`
     have hidx := hinv.index h
     unfold IdxOK at hidx
@@ -264,8 +264,174 @@ theorem view_eq_derive (c : Ctl) (h : String) (hinv : Inv c) (hwf : WF c)
     endpoint without targetRef at a pod's address, no conflicting duplicate endpoints. -/
 theorem convergence_to_derive (ops : List Op) (h : String) (hgood : AllGood {} ops)
     (hwf : WF (run {} ops).c) (hnc : NoCachedAddr (run {} ops).c) (hnp : NoPodAtUntargeted (run {} ops).c)
-    (hdist : ∀ sv, DistinctEps (run {} ops).c h sv) :
+    (hdist : ∀ sv, (run {} ops).c.svcs.find? (fun sv => sv.host = h) = some sv → DistinctEps (run {} ops).c h sv) :
     ViewAgree (hostView (run {} ops).c h) (derive (run {} ops).c h) :=
   view_eq_derive _ h (convergence_any_order ops hgood) hwf hnc hnp hdist
+
+/-! ### two interleavings of the same history -/
+
+/-- two controllers hold the same objects (as sets: the list order of a store is the order of first
+    arrival, which differs between interleavings) -/
+structure SameObjects (c d : Ctl) : Prop where
+  svcs : ∀ x, x ∈ c.svcs ↔ x ∈ d.svcs
+  slices : ∀ x, x ∈ c.slices ↔ x ∈ d.slices
+  pods : ∀ x, x ∈ c.pods ↔ x ∈ d.pods
+  nodes : ∀ x, x ∈ c.nodes ↔ x ∈ d.nodes
+
+theorem find?_eq_of_same_members {α : Type} (l1 l2 : List α) (p : α → Bool)
+    (hm : ∀ x, x ∈ l1 ↔ x ∈ l2) (hu : ∀ a ∈ l2, ∀ b ∈ l2, p a = true → p b = true → a = b) :
+    l1.find? p = l2.find? p := by
+  cases h1 : l1.find? p with
+  | none =>
+    cases h2 : l2.find? p with
+    | none => rfl
+    | some b =>
+      have hb : b ∈ l2 := List.mem_of_find?_eq_some h2
+      have hpb : p b = true := List.find?_some h2
+      have := List.find?_eq_none.mp h1 b ((hm b).mpr hb)
+      simp [hpb] at this
+  | some a =>
+    have ha : a ∈ l1 := List.mem_of_find?_eq_some h1
+    have hpa : p a = true := List.find?_some h1
+    cases h2 : l2.find? p with
+    | none =>
+      have := List.find?_eq_none.mp h2 a ((hm a).mp ha)
+      simp [hpa] at this
+    | some b =>
+      have hb : b ∈ l2 := List.mem_of_find?_eq_some h2
+      have hpb : p b = true := List.find?_some h2
+      rw [hu a ((hm a).mp ha) b hb hpa hpb]
+
+/-- node names are unique -/
+def NodesUnique (c : Ctl) : Prop := ∀ a ∈ c.nodes, ∀ b ∈ c.nodes, a.name = b.name → a = b
+
+theorem ViewAgree.trans_symm {a b c : Option HostView} (h1 : ViewAgree a b) (h2 : ViewAgree c b) : ViewAgree a c := by
+  unfold ViewAgree at *
+  cases a with
+  | none =>
+    cases b with
+    | none => cases c with
+      | none => trivial
+      | some _ => exact h2
+    | some _ => exact absurd h1 (fun h => h)
+  | some va =>
+    cases b with
+    | none => exact absurd h1 (fun h => h)
+    | some vb =>
+      cases c with
+      | none => exact absurd h2 (fun h => h)
+      | some vc =>
+        simp only [] at h1 h2 ⊢
+        refine ⟨h1.1.trans h2.1.symm, fun e => (h1.2.1 e).trans (h2.2.1 e).symm, ?_⟩
+        intro hne a
+        have hne2 : vc.eps ≠ [] := by
+          cases hva : va.eps with
+          | nil => exact absurd hva hne
+          | cons e t =>
+            have : e ∈ vc.eps := (h2.2.1 e).mpr ((h1.2.1 e).mp (by rw [hva]; simp))
+            intro h0; rw [h0] at this; cases this
+        exact (h1.2.2 hne a).trans (h2.2.2 hne2 a).symm
+
+/-- `derive` depends on the stores only as sets (given faithful names) -/
+theorem derive_congr (c d : Ctl) (h : String) (hso : SameObjects c d) (hwfc : WF c) (hwfd : WF d)
+    (hnu : NodesUnique d) (hnpc : NoPodAtUntargeted c) (hnpd : NoPodAtUntargeted d)
+    (hdc : ∀ sv, c.svcs.find? (fun sv => sv.host = h) = some sv → DistinctEps c h sv)
+    (hdd : ∀ sv, d.svcs.find? (fun sv => sv.host = h) = some sv → DistinctEps d h sv) :
+    ViewAgree (derive c h) (derive d h) := by
+  unfold ViewAgree derive
+  have hfs : c.svcs.find? (fun sv => sv.host = h) = d.svcs.find? (fun sv => sv.host = h) := by
+    apply find?_eq_of_same_members _ _ _ hso.svcs
+    intro a ha b hb hpa hpb
+    simp only [decide_eq_true_eq] at hpa hpb
+    exact hwfd.svcHostInj a ha b hb (hpa.trans hpb.symm)
+  rw [hfs]
+  cases hfd : d.svcs.find? (fun sv => sv.host = h) with
+  | none => simp
+  | some sv =>
+    simp only [Option.map]
+    have hfc : c.svcs.find? (fun sv => sv.host = h) = some sv := hfs.trans hfd
+    have hM : ∀ e, e ∈ deriveAll c h sv ↔ e ∈ deriveAll d h sv := by
+      intro e
+      have hb : ∀ sl ∈ c.slices, buildSlice c.pods c.nodes (deriveByIP c.pods) (some sv) sl =
+          buildSlice d.pods d.nodes (deriveByIP d.pods) (some sv) sl := by
+        intro sl hsl
+        apply buildSlice_congr
+        · intro ea hea tns tn htg
+          have hfp : findPod c.pods tns tn = findPod d.pods tns tn := by
+            apply find?_eq_of_same_members _ _ _ hso.pods
+            intro a ha b hb hpa hpb
+            simp only [Bool.decide_and, Bool.and_eq_true, decide_eq_true_eq] at hpa hpb
+            exact hwfd.podNameInj a ha b hb (hpa.1.trans hpb.1.symm) (hpa.2.trans hpb.2.symm)
+          rw [hfp]
+          cases findPod d.pods tns tn with
+          | none => rfl
+          | some p =>
+            simp only [podView, Option.map, Option.some.injEq, Prod.mk.injEq, true_and]
+            unfold localityOf
+            have : c.nodes.find? (fun n => n.name = p.node) = d.nodes.find? (fun n => n.name = p.node) := by
+              apply find?_eq_of_same_members _ _ _ hso.nodes
+              intro a ha b hb hpa hpb
+              simp only [decide_eq_true_eq] at hpa hpb
+              exact hnu a ha b hb (hpa.trans hpb.symm)
+            rw [this]
+        · intro ea hea htg
+          rw [podByIP_none _ _ _ _ (deriveByIP_none _ _ (hnpc sl hsl ea hea htg)),
+            podByIP_none _ _ _ _ (deriveByIP_none _ _ (hnpd sl ((hso.slices sl).mp hsl) ea hea htg))]
+          rfl
+      unfold deriveAll
+      rw [List.mem_flatMap, List.mem_flatMap]
+      constructor
+      · intro hx
+        obtain ⟨sl, hsl, hee⟩ := hx
+        have hm := List.mem_filter.mp hsl
+        refine ⟨sl, List.mem_filter.mpr ⟨(hso.slices sl).mp hm.1, hm.2⟩, ?_⟩
+        rw [← hb sl hm.1]; exact hee
+      · intro hx
+        obtain ⟨sl, hsl, hee⟩ := hx
+        have hm := List.mem_filter.mp hsl
+        have hc := (hso.slices sl).mpr hm.1
+        refine ⟨sl, List.mem_filter.mpr ⟨hc, hm.2⟩, ?_⟩
+        rw [hb sl hc]; exact hee
+    have hE : ∀ e, e ∈ dedupEps [] (deriveAll c h sv) ↔ e ∈ dedupEps [] (deriveAll d h sv) := by
+      intro e
+      rw [mem_dedupEps _ [] e (hdc sv hfc), mem_dedupEps _ [] e (hdd sv hfd), hM e]
+    refine ⟨trivial, hE, ?_⟩
+    intro _ a
+    rw [mem_sasOf, mem_sasOf]
+    constructor
+    · intro hx
+      obtain ⟨h1, e, he, hea⟩ := hx
+      exact ⟨h1, e, (hE e).mp he, hea⟩
+    · intro hx
+      obtain ⟨h1, e, he, hea⟩ := hx
+      exact ⟨h1, e, (hE e).mpr he, hea⟩
+
+/-- **order_independent.**  Two histories - in particular two interleavings of the per-kind streams
+    of one history - made of good steps that end with the same objects show, for every hostname, the
+    same Service, the same endpoint set and (for a service with endpoints) the same service-account
+    set.  Side conditions on the final objects: faithful names, no endpoint without targetRef at a
+    pod's address, no conflicting duplicate endpoints. -/
+theorem order_independent (ops1 ops2 : List Op) (h : String)
+    (hg1 : AllGood {} ops1) (hg2 : AllGood {} ops2)
+    (hso : SameObjects (run {} ops1).c (run {} ops2).c)
+    (hwf1 : WF (run {} ops1).c) (hwf2 : WF (run {} ops2).c) (hnu : NodesUnique (run {} ops2).c)
+    (hnc1 : NoCachedAddr (run {} ops1).c) (hnc2 : NoCachedAddr (run {} ops2).c)
+    (hnp1 : NoPodAtUntargeted (run {} ops1).c) (hnp2 : NoPodAtUntargeted (run {} ops2).c)
+    (hd1 : ∀ sv, (run {} ops1).c.svcs.find? (fun sv => sv.host = h) = some sv → DistinctEps (run {} ops1).c h sv)
+    (hd2 : ∀ sv, (run {} ops2).c.svcs.find? (fun sv => sv.host = h) = some sv → DistinctEps (run {} ops2).c h sv) :
+    ViewAgree (hostView (run {} ops1).c h) (hostView (run {} ops2).c h) := by
+  have v1 := convergence_to_derive ops1 h hg1 hwf1 hnc1 hnp1 hd1
+  have v2 := convergence_to_derive ops2 h hg2 hwf2 hnc2 hnp2 hd2
+  have dc := derive_congr _ _ h hso hwf1 hwf2 hnu hnp1 hnp2 hd1 hd2
+  -- view1 ~ derive1 ~ derive2 ~ view2
+  have s1 : ViewAgree (hostView (run {} ops1).c h) (derive (run {} ops2).c h) := by
+    have dcs : ViewAgree (derive (run {} ops2).c h) (derive (run {} ops2).c h) := by
+      unfold ViewAgree
+      cases derive (run {} ops2).c h with
+      | none => trivial
+      | some v => exact ⟨rfl, fun _ => Iff.rfl, fun _ _ => Iff.rfl⟩
+    have dc' : ViewAgree (derive (run {} ops2).c h) (derive (run {} ops1).c h) := dcs.trans_symm dc
+    exact v1.trans_symm dc'
+  exact s1.trans_symm v2
 
 end IstioModel.C15
